@@ -80,6 +80,7 @@ func TestVerif_C07(t *testing.T) {
 			r.Set("states_round_tripped", differ.states.Load())
 			r.Set("events_run_on_restored_and_reference_image", differ.events.Load())
 			r.Set("actions_compared", differ.actsCmp.Load())
+			r.Set("second_events_run_on_both_images", differ.second2.Load())
 			r.Set("pending_action_lists_round_tripped", differ.actTrips.Load())
 			r.Set("states_with_step_routers", differ.withKids.Load())
 			r.Set("states_with_equivocation_records", differ.withEq.Load())
